@@ -145,6 +145,10 @@ def body_marks(view, f, published_only=True):
                 tag = ("whole", comp, ev)
             elif how == "call:swap":
                 tag = ("swapcall", comp, ev)
+            elif how == "call:extend" and comp in ("heap", "qp") and refill_of(view, f, ev) is not None:
+                # `T.clear(); T.extend((0..n).map(Ctor))` after retain: the second half of re-creating the table in place (the
+                # clear is the `whole` event; what is filled in is checked by the retain pattern)
+                tag = ("noop",)
             elif how == "whole":
                 if comp == "size":
                     d = size_delta(view, f, ev)
@@ -311,6 +315,25 @@ def published_store(view, f):
     return False
 
 
+def refill_of(view, f, ev):
+    """ev: `T.extend(..)` on a table.  -> the `T.clear()` event it completes, when f is a retain body, the clear dominates the
+    extend and no other write of T lies between them; else None"""
+    evs = view.fx.events_inl(f)
+    if not any(e["kind"] == "mw" and e.get("mclass") == "retain" for e in evs):
+        return None
+    comp = ev["comp"]
+    clears = [e for e in evs if e["kind"] == "tw" and e["comp"] == comp and e.get("how") == "call:clear"]
+    if len(clears) != 1:
+        return None
+    c = clears[0]
+    if not (c["bb"] == ev["bb"] or f.cfg.dominates(c["bb"], ev["bb"])):
+        return None
+    others = [e for e in evs if e["kind"] == "tw" and e["comp"] == comp and e is not c and e is not ev]
+    if others:
+        return None
+    return c
+
+
 def retain_pattern_ok(view, f):
     """Store::retain_mut: after retain2, `if map.len() != size { size = map.len(); heap = identity; qp = identity }`"""
     vp = view.vp
@@ -322,6 +345,15 @@ def retain_pattern_ok(view, f):
     for e in evs:
         if e["kind"] == "tw" and e["how"] == "whole":
             whole[e["comp"]] = e
+    refilled = set()
+    for e in evs:
+        if e["kind"] == "tw" and e.get("how") == "call:extend" and e["comp"] in ("heap", "qp") and e["comp"] not in whole and "ci" in e:
+            c = refill_of(view, f, e)
+            a = view.fx.args_vp(e["ci"])
+            if c is not None and len(a) == 2:
+                # cleared and refilled in place: judged like `T = <what is extended from>.collect()`
+                whole[e["comp"]] = dict(e, val=a[1])
+                refilled.add(e["comp"])
     missing = [c for c in ("size", "heap", "qp") if c not in whole]
     if missing:
         return False, "after retain the components %s are not re-created" % missing
@@ -345,7 +377,7 @@ def retain_pattern_ok(view, f):
         end = strip(rng[0][3][1]) if rng else None
         end_ok = end is not None and ((component(end) and component(end)[0] == "size") or (
             end[0] == "call" and end[1].endswith("::len") and end[2] and component(end[2][0]) and component(end[2][0])[0] == "map"))
-        ok = "collect" in names and "map" in names and has_ctor and rng and const_int(strip(rng[0][3][0])) == 0 and end_ok
+        ok = ("collect" in names or c in refilled) and "map" in names and has_ctor and rng and const_int(strip(rng[0][3][0])) == 0 and end_ok
         if not ok:
             ok = identity_push_loop(view, f, whole[c], ctor)
         if not ok:
